@@ -505,6 +505,12 @@ impl Future for IoFut {
                 Poll::Ready(Err(e)) => {
                     sim.trace(|| format!("    io task {} ends on error {}", this.task, e));
                     sim.probe("io_task_error");
+                    if reading && e.raw_os_error() == Some(libc::ECONNRESET) {
+                        sim.probe("io_read_reset_by_peer");
+                        if !all_delivered(&sim, this.aid, "a connection reset") {
+                            return Poll::Pending;
+                        }
+                    }
                     this.finish(&sim);
                     crate::exec::note_done(&sim, this.task);
                     return Poll::Ready(this.task as u64);
@@ -512,6 +518,9 @@ impl Future for IoFut {
                 Poll::Ready(Ok(0)) => {
                     // EOF (or a zero-length transfer): the peer is gone
                     sim.probe("io_task_eof");
+                    if reading && !all_delivered(&sim, this.aid, "end of stream") {
+                        return Poll::Pending;
+                    }
                     this.finish(&sim);
                     crate::exec::note_done(&sim, this.task);
                     return Poll::Ready(this.task as u64);
@@ -550,6 +559,26 @@ impl Future for IoFut {
             }
         }
     }
+}
+
+/// The stream ended (EOF, or a reset because the peer went away with our bytes unread): the
+/// kernel reports that only after everything the peer wrote has been read, so the task must
+/// have been given every byte.
+fn all_delivered(sim: &Sim, aid: Id, what: &str) -> bool {
+    let st = sim.st.borrow();
+    let Some(m) = st.adapters.get(&aid) else { return true };
+    if m.indeterminate || m.peer.is_some() || !matches!(m.fdkind, FdKind::Sock | FdKind::PipeR) {
+        return true;
+    }
+    if m.task_read < m.peer_wrote {
+        let msg = format!("adapter {}: the read side reported {} after handing out {} of the {} bytes the peer wrote before it closed", aid, what, m.task_read, m.peer_wrote);
+        drop(st);
+        sim.violate("io.bytes_lost", vec![], msg);
+        return false;
+    }
+    drop(st);
+    sim.rule_ok(&["C17"], 181);
+    true
 }
 
 fn set_waiting(sim: &Sim, task: Id, w: bool) {
